@@ -827,8 +827,10 @@ reg(Prop("C13", "UCI driver answers every request exactly once under any command
                     rule="grammar-generated conforming scripts (uci, isready, ucinewgame, setoption, position, go "
                          "infinite/depth/nodes/movetime/clock[+inc] with and without ponder, stop, ponderhit, debug, quit, EOF) "
                          "x delay vectors (random, and the line after the first go swept over 0, d-1, d, d+1 against the "
-                         "search duration d; 40% back-to-back scripts: searches that end at once, next line sent the moment "
-                         "bestmove is seen) "
+                         "search duration d; 35% back-to-back scripts: searches that end at once, next line sent the moment "
+                         "bestmove is seen; 10% congested-output scripts: slow consumer of stdout + bursts of mock info lines "
+                         "of 20..1200 bytes + isready bursts; 15% of the grammar scripts with a slow consumer, 30% of their "
+                         "mock searches with long info lines) "
                          "x blocking mock search or real search (25% of the grammar scripts), real uci.Driver over OS pipes "
                          "in a -race worker process; non-trivial = a command or end of input races with a search; distinct by "
                          "(script, delays)")],
